@@ -188,4 +188,38 @@ __CPROVER_ensures ((starting_bit <= gb && gb < __CPROVER_return_value) ==> V_BIT
 V_SCAN (__gmpn_scan0, 0);
 V_SCAN (__gmpn_scan1, 1);
 
+/* ---- C01 kernels: product chain relative to the machine multiply (uninterpreted mulq, /verif/shim/longlong_models.h).
+   P(u,v) = MULHI(u,v):MULLO(u,v).  Carries are whole limbs here. */
+unsigned long __CPROVER_uninterpreted_mulhi (unsigned long, unsigned long);
+unsigned long __CPROVER_uninterpreted_mullo (unsigned long, unsigned long);
+#define V_PROD(u,v) ((((V_u128) __CPROVER_uninterpreted_mulhi (u, v)) << 64) + (V_u128) __CPROVER_uninterpreted_mullo (u, v))
+#define V_MULREL(r,u,v,ci,co)      ((V_u128)(r) + ((V_u128)(co) << 64) == V_PROD (u, v) + (V_u128)(ci))
+#define V_ADDMULREL(r,r0,u,v,ci,co) ((V_u128)(r) + ((V_u128)(co) << 64) == (V_u128)(r0) + V_PROD (u, v) + (V_u128)(ci))
+#define V_SUBMULREL(r,r0,u,v,ci,co) ((V_u128)(r) + V_PROD (u, v) + (V_u128)(ci) == (V_u128)(r0) + ((V_u128)(co) << 64))
+
+mp_limb_t __gmpn_mul_1 (mp_ptr rp, mp_srcptr up, mp_size_t n, mp_limb_t vl)
+__CPROVER_requires (1 <= n && n <= V_NMAX && 0 <= gk && gk < n)
+__CPROVER_requires (V_W_OK (rp, n) && V_R_OK (up, n) && V_SAME_OR_INCR (rp, up, n))
+__CPROVER_assigns (__CPROVER_object_upto (rp, n * 8), g_ci, g_co)
+__CPROVER_ensures (V_MULREL (rp[gk], __CPROVER_old (up[gk]), vl, g_ci, g_co))
+__CPROVER_ensures (gk == 0 ==> g_ci == 0)
+__CPROVER_ensures (gk == n - 1 ==> g_co == __CPROVER_return_value)
+;
+mp_limb_t __gmpn_addmul_1 (mp_ptr rp, mp_srcptr up, mp_size_t n, mp_limb_t vl)
+__CPROVER_requires (1 <= n && n <= V_NMAX && 0 <= gk && gk < n)
+__CPROVER_requires (V_W_OK (rp, n) && V_R_OK (up, n) && V_SAME_OR_SEPARATE (rp, up, n))
+__CPROVER_assigns (__CPROVER_object_upto (rp, n * 8), g_ci, g_co)
+__CPROVER_ensures (V_ADDMULREL (rp[gk], __CPROVER_old (rp[gk]), __CPROVER_old (up[gk]), vl, g_ci, g_co))
+__CPROVER_ensures (gk == 0 ==> g_ci == 0)
+__CPROVER_ensures (gk == n - 1 ==> g_co == __CPROVER_return_value)
+;
+mp_limb_t __gmpn_submul_1 (mp_ptr rp, mp_srcptr up, mp_size_t n, mp_limb_t vl)
+__CPROVER_requires (1 <= n && n <= V_NMAX && 0 <= gk && gk < n)
+__CPROVER_requires (V_W_OK (rp, n) && V_R_OK (up, n) && V_SAME_OR_SEPARATE (rp, up, n))
+__CPROVER_assigns (__CPROVER_object_upto (rp, n * 8), g_ci, g_co)
+__CPROVER_ensures (V_SUBMULREL (rp[gk], __CPROVER_old (rp[gk]), __CPROVER_old (up[gk]), vl, g_ci, g_co))
+__CPROVER_ensures (gk == 0 ==> g_ci == 0)
+__CPROVER_ensures (gk == n - 1 ==> g_co == __CPROVER_return_value)
+;
+
 #endif
